@@ -148,9 +148,45 @@ Qed.
 (* ------------------------------------------------------------------ state invariants *)
 Definition lk (s : st) (i : id) : option entry := lookup_id i (st_ents s).
 
+(* id_to_entry is a BTreeMap: keys strictly increasing *)
+Fixpoint ksorted (l : list (id * entry)) : Prop :=
+  match l with
+  | [] => True
+  | (k, _) :: r => (forall j, In j (map fst r) -> k < j) /\ ksorted r
+  end.
+
+Lemma put_keys j e l x : In x (map fst (put j e l)) -> x = j \/ In x (map fst l).
+Proof.
+  induction l as [|[k y] r IH]; cbn [put map fst In].
+  - intros [H|[]]. left. symmetry. exact H.
+  - destruct (j <? k); [cbn [map fst In]; intros [H|H]; [left; symmetry; exact H|right; exact H]|].
+    destruct (j =? k) eqn:E.
+    + apply N.eqb_eq in E. subst. cbn [map fst In]. intros [H|H]; [left; symmetry; exact H|right; right; exact H].
+    + cbn [map fst In]. intros [H|H]; [right; left; exact H|]. destruct (IH H) as [H'|H']; [left; exact H'|right; right; exact H'].
+Qed.
+
+Lemma put_sorted j e l : ksorted l -> ksorted (put j e l).
+Proof.
+  induction l as [|[k y] r IH]; cbn [put ksorted]; [intros _; split; [intros x []|exact I]|].
+  intros [H1 H2]. destruct (j <? k) eqn:Elt.
+  - apply N.ltb_lt in Elt. cbn [ksorted map fst]. split; [|split; assumption].
+    intros x [<-|Hx]; [exact Elt|]. pose proof (H1 x Hx). lia.
+  - apply N.ltb_ge in Elt. destruct (j =? k) eqn:E.
+    + apply N.eqb_eq in E. subst. cbn [ksorted]. split; assumption.
+    + apply N.eqb_neq in E. cbn [ksorted]. split; [|exact (IH H2)].
+      intros x Hx. destruct (put_keys j e r x Hx) as [->|Hx']; [lia|exact (H1 x Hx')].
+Qed.
+
+Lemma ksorted_NoDup l : ksorted l -> NoDup (map fst l).
+Proof.
+  induction l as [|[k y] r IH]; cbn [ksorted map fst]; [intros _; constructor|].
+  intros [H1 H2]. constructor; [|exact (IH H2)]. intro Hin. pose proof (H1 k Hin). lia.
+Qed.
+
 Record wf (s : st) : Prop := {
   wf_lt : forall i e, lk s i = Some e -> i < st_next s;
-  wf_types : forall d i, In (d, i) (st_types s) -> lk s i = Some (mkEntry d []) }.
+  wf_types : forall d i, In (d, i) (st_types s) -> lk s i = Some (mkEntry d []);
+  wf_sorted : ksorted (st_ents s) }.
 
 (* nothing below the old next id changes *)
 Definition frame (s s' : st) : Prop :=
@@ -201,7 +237,7 @@ Lemma set_json_lk s i : lk (set_json s) i = lk s i.
 Proof. reflexivity. Qed.
 
 Lemma wf_set_json s : wf s -> wf (set_json s).
-Proof. intros [H1 H2]. split; [exact H1|exact H2]. Qed.
+Proof. intros [H1 H2 H3]. split; [exact H1|exact H2|exact H3]. Qed.
 
 Lemma wf_fresh_entry s i te names types :
   wf s -> i = st_next s ->
@@ -219,6 +255,7 @@ Proof.
     + pose proof (wf_types s Hw d j Hin') as H.
       pose proof (wf_lt s Hw j _ H) as Hlt.
       destruct (j =? st_next s) eqn:E; [apply N.eqb_eq in E; lia|]. exact H.
+  - cbn [st_ents]. apply put_sorted. exact (wf_sorted s Hw).
 Qed.
 
 Lemma frame_fresh_entry s te names types :
